@@ -118,6 +118,9 @@ func orderCases() []orderCase {
 	// a function literal used as the callee of a literal call is evaluated where it is written: after the receiver and the chain argument
 	add("literalcall-kwarg-default", "§0.{|x, k: §1| x}", "1", "2")
 	add("literalcall-chainarg-kwarg-default", "§0@(§1){|x, k: §2| x}", "[1]", "[]", "2")
+	// variable calls: receiver, chain argument, then the callee variable is looked up; written arguments are evaluated
+	add("varcall-chainarg", "§0@(§1)^id", "[1]", "[]")
+	add("varcall-args", "§0.^ff(§1, k: §2)", "1", "2", "3")
 	add("trailing-func-kwarg-default", "ff(§0, §1) {|y, k: §2| y}", "1", "2", "3")
 	add("embedded-str", `"a#{§0}b#{§1}c#{§2}d"`, "1", "2", "3")
 	add("embedded-str-2", `"#{§0}#{§1}"`, "1", "2")
